@@ -303,3 +303,5 @@ ASSUMPTIONS = [
     're-populating an id emptied while its deferred-deletion mark was pending is outside the claim (as in C01)',
 ]
 OUTSIDE = ['callbacks that mutate the world during the deletion phase', 'faults raised by processors', 'histories longer than L+K']
+
+TECHNIQUE = 'bounded symbolic execution (symx/z3) of deletion histories; fault position is an unconstrained z3 integer'
